@@ -40,7 +40,7 @@ def plan(tier, seed):
         },
         "assumptions": [
             "flatness is decided as the exact identity weight*g/f = const per generator, with f and g computed by the reference model from the proposal masses; no statistical test in this tier",
-            "tolerances: on-shell |E^2-p^2-m^2| <= 1e-11*m0^2, conservation 1e-10*m0, flatness identity 1e-9 relative",
+            "tolerances: on-shell |E^2-p^2-m^2| <= 1e-11*m0^2, conservation 1e-9*m0 (boosts of light sub-systems amplify rounding by their gamma), flatness identity 1e-9 relative",
         ],
     }
 
@@ -170,7 +170,9 @@ def run_generator(spec, log):
                 k = rec.n_flatten.get(g, 0)
                 w = b["weight"]
                 n = w.shape[0]
-                pos = np.nonzero(w > 1e-300)[0]
+                # forced acceptances only among proposals an i.i.d. stream would accept with a sane probability
+                # (force-accepting weight ~ 0 proposals produces near-degenerate kinematics with huge boosts)
+                pos = np.nonzero(w > 1e-3 * np.nanmax(np.where(np.isnan(w), 0.0, w)))[0] if w.size else np.array([], dtype=int)
                 if k == 0:
                     j = {"0": 0, "1": 1, "N-1": N - 1, "N": N, "N+1": N + 1, "half": N // 2}[spec.get("j_first", "half")]
                     want = max(0, min(j, len(pos)))
@@ -421,7 +423,7 @@ def execute(spec):
             tot = sum(ps)
             dE = float(np.max(np.abs(tot[:, 0] - m0)))
             dp = float(np.max(np.abs(tot[:, 1:])))
-            if not (dE <= 1e-10 * m0 and dp <= 1e-10 * m0):
+            if not (dE <= 1e-9 * m0 and dp <= 1e-9 * m0):
                 log.fail("momentum-conservation", "%s|momentum-conservation" % kind, "momenta do not add up to the parent at rest: |sum E - m0| = %.3g, |sum p| = %.3g (m0=%r, masses=%r)" % (dE, dp, m0, mi))
                 raise StopIteration
             # exactly-once / order: emitted event r comes from the r-th accepted proposal
@@ -449,7 +451,7 @@ def execute(spec):
             m0 = spec["m0"]
             dE = float(np.max(np.abs(tot[:, 0] - m0)))
             dp = float(np.max(np.abs(tot[:, 1:])))
-            if not (dE <= 1e-10 * m0 and dp <= 1e-10 * m0):
+            if not (dE <= 1e-9 * m0 and dp <= 1e-9 * m0):
                 log.fail("momentum-conservation", "chain|momentum-conservation", "nested chain: final momenta do not add up to the parent at rest: |sum E - m0| = %.3g, |sum p| = %.3g" % (dE, dp))
                 raise StopIteration
             check_flat_identity(np, log, spec, rec, "chain")
@@ -472,7 +474,7 @@ def execute(spec):
             tot = sum(ps.values())
             dE = float(np.max(np.abs(tot[:, 0] - m0)))
             dp = float(np.max(np.abs(tot[:, 1:])))
-            if not (dE <= 1e-10 * m0 and dp <= 1e-10 * m0):
+            if not (dE <= 1e-9 * m0 and dp <= 1e-9 * m0):
                 log.fail("momentum-conservation", "config|momentum-conservation", "config %s: |sum E - m0| = %.3g, |sum p| = %.3g" % (spec["card"], dE, dp))
                 raise StopIteration
             # fixed-mass nodes declared with model: one
